@@ -8,6 +8,7 @@ model descriptor (prefix notation, `<pre>` = hex bytes or `-`):
 value = `<f64hex>` ; unit = `m,s,c,p10` (integers)
 
 * `c16.call <model> | <unit> <x>… | (<hexname> <f64hex> <unit>)…`  →  `ok <unit> <f64hex>…` | `err:*`
+* `c16.calldt <model> | <xdtype> | (<hexname> <dtype> <f64hex>)…` → `ok f64|f32|i64|i32` | `err:dtype` | `err:*`
 * `c16.fwhm <model> | (<hexname> <f64hex> <unit>)…`               →  `ok <unit> <f64hex>` | `err:*`
 * `c16.names <model>`   →  `ok <hexname>…` | `err:value` (construction refused)
 * `c16.bounds <model>`  →  `ok <hexname>:zi|zo …`
@@ -17,7 +18,7 @@ namespace ScnVerif.Driver.C16
 open ScnVerif ScnVerif.PeakModels ScnVerif.Proto
 
 def errStr : Err → String
-  | .value => "err:value" | .unit => "err:unit" | .key => "err:key" | .notimpl => "err:notimpl"
+  | .value => "err:value" | .unit => "err:unit" | .key => "err:key" | .notimpl => "err:notimpl" | .dtype => "err:dtype"
 
 def int? (s : String) : Option Int :=
   match s.toList with
@@ -57,6 +58,21 @@ def params? : List String → Option (List (Str × Value Float))
       some ((n, ⟨v, u⟩) :: tl)
   | _ => none
 
+def dt? : String → Option DT
+  | "f64" => some .f64 | "f32" => some .f32 | "i64" => some .i64 | "i32" => some .i32 | _ => none
+
+def dtStr : DT → String
+  | .f64 => "f64" | .f32 => "f32" | .i64 => "i64" | .i32 => "i32"
+
+/-- `(<hexname> <dtype> <f64hex value>)…`; the value only decides the `max(scale, 1e-15)` branch -/
+def pdts? : List String → Option (List (Str × PDT))
+  | [] => some []
+  | n :: d :: v :: rest => do
+      let n ← str? n; let d ← dt? d; let v ← f64? v
+      let tl ← pdts? rest
+      some ((n, ⟨d, decide ((1e-15 : Float) > v), decide ((1e-15 : Float) > pvGaussScale v)⟩) :: tl)
+  | _ => none
+
 def floats? (ws : List String) : Option (List Float) := ws.mapM f64?
 
 def splitBar (ws : List String) : List (List String) :=
@@ -82,6 +98,20 @@ def handle : List String → Option String
             | .error e => some (errStr e)
             | .ok [] => some "ok -"
             | .ok (v :: vs) => some s!"ok {unitStr v.unit} {outVals ((v :: vs).map (·.val))}"
+      | _ => none
+  | "c16.calldt" :: rest => do
+      match splitBar rest with
+      | [mtoks, [xdt], ptoks] =>
+        let (m, extra) ← model? 64 mtoks
+        if !extra.isEmpty then none else
+        let xdt ← dt? xdt
+        let ps ← pdts? ptoks
+        match m with
+        | .error e => some (errStr e)
+        | .ok m =>
+          match callDT m xdt ps with
+          | .error e => some (errStr e)
+          | .ok d => some ("ok " ++ dtStr d)
       | _ => none
   | "c16.fwhm" :: rest => do
       match splitBar rest with
